@@ -26,7 +26,7 @@ func init() { Register("C06", c06Parent, c06Child) }
 
 func c06Parent(r *ev.Run) {
 	r.Rule = "schemas with single- and multi-column indexes (one or two per table) over scalar columns, histories concentrated on 3-4 index values and few rows, with swaps, rotations, delete+insert of a value and values freed by garbage collection; a case is one transaction; distinct = (index layout of the tables touched, operation kinds, whether the final state holds a duplicate, whether an intermediate state does)"
-	r.Assume("schema indexes range over scalar (min=max=1) columns; the all-zero uuid is not used as an index value")
+	r.Assume("schema indexes range over scalar (min=max=1) integer/string/boolean/enum columns (a real column would bring +0/-0 into index values, which single- and multi-column indexes hash differently); the all-zero uuid is not used as an index value")
 	r.RunBatches(ev.BatchOpts{N: r.N(16, 64)})
 }
 
@@ -245,7 +245,7 @@ func c06Child(r *ev.Run, batch int) {
 		for _, t := range s.Tables {
 			var scalars []string
 			for _, c := range t.Cols {
-				if c.IsScalar() && !c.Key.IsRef() && c.Key.Type != "uuid" && c.Name != "name" && !c.Ephemeral {
+				if c.IsScalar() && !c.Key.IsRef() && c.Key.Type != "uuid" && c.Key.Type != "real" && c.Name != "name" && !c.Ephemeral {
 					scalars = append(scalars, c.Name)
 				}
 			}
